@@ -102,12 +102,29 @@ func runC26(c *Ctx) {
 			total += sz
 		}
 	}
-	disrupt := closer != 0 || fault >= 3
+	// no-deadline stratum and a stalled server with a small send buffer: a Write genuinely
+	// blocked in the transport that only Close can break
+	noDeadline := ch.Bool(30, "no-deadline")
+	var serverStall time.Duration
+	sendCap := 0
+	if withWriter && ch.Bool(35, "server-stall") {
+		if closer == 1 && ch.Bool(60, "stall-long") {
+			serverStall = time.Hour
+		} else {
+			serverStall = 30 * time.Second
+		}
+		sendCap = []int{1024, 16384}[ch.Pick(2, "send-cap")]
+		big := make([]byte, 40000)
+		payload = append(payload, big)
+		total += len(big)
+	}
+	disrupt := closer != 0 || fault >= 3 || (serverStall > 0 && !noDeadline)
 
 	w := c.NewWorld(simrt.Config{LockYield: lockYield, AtomicYield: atomYield, PreemptPct: 5 + 15*ch.Pick(4, "preempt")})
 	ResetStamp()
 	l := simnet.NewLink("c")
 	l.Frag = frag
+	l.AB.Cap = sendCap
 	switch fault {
 	case 3:
 		l.BA.ResetAt = faultOff
@@ -126,9 +143,11 @@ func runC26(c *Ctx) {
 	}
 	const connDeadline = 20 * time.Second
 	u := tls.UClient(l.A, ccfg, idi.ID)
-	u.SetDeadline(time.Now().Add(connDeadline))
+	if !noDeadline {
+		u.SetDeadline(time.Now().Add(connDeadline))
+	}
 
-	o := &ConnOutcome{Spec: &ConnSpec{ID: idi.ID, Peer: peer, SCfg: scfg, StdCfg: stdcfg, Deadline: 60 * time.Second}, Link: l}
+	o := &ConnOutcome{Spec: &ConnSpec{ID: idi.ID, Peer: peer, SCfg: scfg, StdCfg: stdcfg, Deadline: 60 * time.Second, ServerStall: serverStall}, Link: l}
 	srv := w.Go("server", func() { defaultServer(o, l.B) })
 
 	var phase1 []*simrt.Task
@@ -140,7 +159,7 @@ func runC26(c *Ctx) {
 	}
 	var rd, wr ioRes
 	var closeErr error
-	var closeAtT time.Duration
+	var closeAtT, closeInvoke time.Duration
 	closed := false
 	for i, hc := range callers {
 		i, hc := i, hc
@@ -197,6 +216,7 @@ func runC26(c *Ctx) {
 	if closer != 0 {
 		phase1 = append(phase1, w.Go("closer", func() {
 			simrt.WaitSteps(closeAt)
+			closeInvoke = w.Now()
 			if closer == 1 {
 				closeErr = u.Close()
 			} else {
@@ -207,6 +227,7 @@ func runC26(c *Ctx) {
 		}))
 	}
 	w.RunUntil(phase1...)
+	transportClosedAfterPhase1 := l.A.Closed()
 
 	// phase 2: the connection must still be usable if nothing legitimately closed it
 	H := false
@@ -275,7 +296,10 @@ func runC26(c *Ctx) {
 		}
 	}
 	sort.Strings(names)
-	c.R.Class = fmt.Sprintf("%s/%s/tls12=%v %v fault=%d ly=%v ay=%v", idi.Name, peerName(peer), tls12, names, fault, lockYield, atomYield)
+	c.R.Class = fmt.Sprintf("%s/%s/tls12=%v %v fault=%d ly=%v ay=%v nodl=%v stall=%v", idi.Name, peerName(peer), tls12, names, fault, lockYield, atomYield, noDeadline, serverStall)
+	if serverStall > 0 {
+		c.Fault("server-stall", 1)
+	}
 	c.R.NonTrivial = len(phase1) >= 2 && w.Overlaps > 0
 	if c.R.Run%400 == 0 {
 		c.R.Sample = map[string]any{"parrot": idi.Name, "peer": peerName(peer), "tasks": names, "fault": fault, "closer": closer, "payload_bytes": total, "lock_yield": lockYield, "atomic_yield": atomYield}
@@ -286,17 +310,28 @@ func runC26(c *Ctx) {
 
 	// (O2) every call returned, and by the deadline (+ close_notify allowance)
 	limit := connDeadline + 5*time.Second + time.Second
+	if noDeadline {
+		// without a connection deadline only Close bounds the calls: Close itself must return
+		// within the library's 5 s close_notify allowance and thereby end every other call
+		limit = 0
+		if closer == 1 && closed {
+			limit = closeInvoke + 5*time.Second + time.Second
+			if fault == 5 {
+				limit += 41 * time.Second
+			}
+		}
+	}
 	for i, hc := range callers {
 		if !hc.returned {
 			c.Violate("handshake-call-never-returned", "caller %d never returned", i)
 			return
 		}
-		if hc.retAt > limit {
+		if limit > 0 && hc.retAt > limit {
 			c.Violate("call-returned-after-deadline handshake", "caller %d returned at %v > %v", i, hc.retAt, limit)
 		}
 	}
-	if rd.retAt > limit || wr.retAt > limit || closeAtT > limit {
-		c.Violate("call-returned-after-deadline io", "reader %v writer %v closer %v limit %v", rd.retAt, wr.retAt, closeAtT, limit)
+	if limit > 0 && (rd.retAt > limit || wr.retAt > limit || closeAtT > limit) {
+		c.Violate(fmt.Sprintf("call-returned-after-deadline io nodeadline=%v", noDeadline), "reader %v writer %v closer %v (invoked %v) limit %v stall=%v cap=%d", rd.retAt, wr.retAt, closeAtT, closeInvoke, limit, serverStall, sendCap)
 	}
 
 	// (O3) handshake outcomes
@@ -309,7 +344,7 @@ func runC26(c *Ctx) {
 		isA := hc.useCtx && hc.ctxErrAtReturn != nil && errors.Is(hc.err, hc.ctxErrAtReturn)
 		if isA {
 			classA = true
-			if !l.A.Closed() {
+			if !transportClosedAfterPhase1 {
 				c.Violate("ctx-error-but-connection-open", "caller %d returned %v but the transport was never closed", i, hc.err)
 			}
 			continue
